@@ -4,7 +4,7 @@ Postconditions are the property's set-theoretic definitions; requires/frames
 are read off the code and its call sites."""
 from dpvc.symexec import Contract, Loop
 from dpvc.verify import Suite, verify_contract, crosscheck
-from dpvc import replay
+from dpvc import replay as dreplay
 
 BIP = "dendropy.datamodel.treemodel._bipartition"
 BITP = "dendropy.utility.bitprocessing"
@@ -166,8 +166,39 @@ def t1(ctx):
     ctx.assume("bit masks are Python ints modelled exactly as sets of naturals (Array Int Bool restricted to NAT); "
                "x-1 by the Skolemised lowest-set-bit definition")
     for c in CONTRACTS:
-        verify_contract(ctx, SUITE, c, replay=replay.replay_any)
+        verify_contract(ctx, SUITE, c, replay=dreplay.replay_any)
         crosscheck(ctx, SUITE, c, n=40 if ctx.tier == "quick" else 400, seed=ctx.seed)
     # the traversal loop of Tree.encode_bipartitions (separate suite: heap theory B + allocation)
     from contracts import C01enc
     C01enc.t1(ctx)
+
+
+def replay(ctx, rec):
+    """T1 witnesses of C01: an encode_bipartitions tree (native re-run) or a scalar input of a bitmask function"""
+    w = rec.get("witness", {})
+    if "tree" in w and str(w.get("key", "")).startswith("encode_bipartitions|"):
+        import dendropy
+        from contracts import C01enc
+        desc = w["tree"]
+        removed = "(namespace without its first taxon)" in desc
+        nw = desc.replace(" (namespace without its first taxon)", "")
+        ns = dendropy.TaxonNamespace(["Z", "A", "B", "C", "D", "E", "F", "x", "y", "u"])
+        if removed:
+            ns.remove_taxon(ns[0])
+        tree = dendropy.Tree.get(data=nw, schema="newick", taxon_namespace=ns, suppress_internal_node_taxa=False)
+        try:
+            tree.encode_bipartitions(suppress_unifurcations=False, collapse_unrooted_basal_bifurcation=False)
+            bad = C01enc._local_equation_failures(tree, ns)
+        except Exception as e:  # noqa
+            bad = ["raised %s" % type(e).__name__]
+        print("encode_bipartitions on %s: %s" % (desc, bad or "local equations hold"))
+        return not bad
+    # scalar witnesses: call the real function on the recorded arguments
+    args = w.get("inputs") or w.get("kwargs")
+    fn = w.get("function")
+    if not args or not fn:
+        print("no input recorded for this obligation")
+        return True
+    f = dreplay.real_function(fn)
+    print("%s(%s) -> %r" % (fn, args, f(**args)))
+    return True
